@@ -234,7 +234,71 @@ func (x *runner) rerep(gi int, p kyber.Point) (kyber.Point, string) {
 
 // edge draws an edge-biased scalar; unlike vh.EdgeScalar it also covers every
 // small value 0..40 (window and digit boundaries of the multipliers).
+// cubeRoot returns a primitive cube root of unity modulo the prime q (nil when
+// q != 1 mod 3): the eigenvalue of the efficient endomorphism of j = 0 curves
+// (BN, BLS12-381), around whose multiples split multipliers have their edges.
+var cubeRoots = map[string]*big.Int{}
+
+func cubeRoot(q *big.Int) *big.Int {
+	if v, ok := cubeRoots[q.String()]; ok {
+		return v
+	}
+	var lam *big.Int
+	qm1 := new(big.Int).Sub(q, big.NewInt(1))
+	if new(big.Int).Mod(qm1, big.NewInt(3)).Sign() == 0 {
+		e := new(big.Int).Div(qm1, big.NewInt(3))
+		for g := int64(2); g < 50 && lam == nil; g++ {
+			c := new(big.Int).Exp(big.NewInt(g), e, q)
+			if c.Cmp(big.NewInt(1)) != 0 {
+				lam = c
+			}
+		}
+	}
+	cubeRoots[q.String()] = lam
+	return lam
+}
+
+// special draws a scalar that is algebraically special for the group order:
+// j*lambda + d and j*lambda^2 + d for the cube roots of unity lambda (small j, d),
+// (q +- 1)/2, values around 2^127, 2^128, 2^129 (half-size split boundaries),
+// and scalars whose 64-bit words are all-zero / all-one in one position.
+func special(r *vh.Rng, q *big.Int) *big.Int {
+	v := new(big.Int)
+	switch r.Intn(5) {
+	case 0, 1:
+		if lam := cubeRoot(q); lam != nil {
+			l := new(big.Int).Set(lam)
+			if r.Bool() {
+				l.Mul(l, l).Mod(l, q)
+			}
+			v.Mul(l, big.NewInt(int64(r.Intn(9))))
+			v.Add(v, big.NewInt(int64(r.Intn(5)-2)))
+			return v.Mod(v, q)
+		}
+		fallthrough
+	case 2:
+		v.Add(q, big.NewInt(int64(2*r.Intn(2)-1))).Rsh(v, 1)
+		v.Add(v, big.NewInt(int64(r.Intn(3)-1)))
+	case 3:
+		v.Lsh(big.NewInt(1), uint(126+r.Intn(5)))
+		v.Add(v, big.NewInt(int64(r.Intn(5)-2)))
+	default:
+		v = r.BigBelow(q)
+		w := uint(64 * r.Intn(4))
+		mask := new(big.Int).Lsh(new(big.Int).SetUint64(^uint64(0)), w)
+		if r.Bool() {
+			v.Or(v, mask)
+		} else {
+			v.AndNot(v, mask)
+		}
+	}
+	return v.Mod(v, q)
+}
+
 func edge(r *vh.Rng, q *big.Int) *big.Int {
+	if r.Chance(12) {
+		return special(r, q)
+	}
 	if r.Chance(22) {
 		v := big.NewInt(int64(r.Intn(41)))
 		if r.Chance(25) {
